@@ -179,7 +179,7 @@ namespace RecInt
     inline __RECINT_IS_ARITH(T, rint<K>&) div_q(rint<K>& q, const rint<K>& a, const T& b) {
         if (a.isNegative()) {
             if (b<0) {
-                div_q(q.Value, (-a).Value, -b);
+                div_q(q.Value, (-a).Value, __recint_mag(b));
             }
             else {
                 div_q(q.Value, (-a).Value, b);
@@ -188,7 +188,7 @@ namespace RecInt
         }
         else {
             if (b<0) {
-                div_q(q.Value, a.Value, -b);
+                div_q(q.Value, a.Value, __recint_mag(b));
                 neg(q);
             }
             else {
